@@ -186,7 +186,7 @@ def make_stray(r, view, svcs, ids):
         svc, tag = r.choice(view.answered[-30:])
     if tag is None:
         base = r.choice(sorted(view.open)) if view.open and r.random() < 0.7 else r.choice(list(ids))
-        fam = r.choice(["%x", "%x_", "zz_1", "%x_1x", "%x_1_2", "%x_zz", "%x-1", "_", "%x__1", "g%x_1", "%x_1.", "%x_g"])
+        fam = r.choice(["%x", "%x_", "zz_1", "%x_1x", "%x_1_2", "%x_zz", "%x-1", "_", "%x__1", "g%x_1", "%x_1.", "%x_g", "%x_ffffffffffffffffffffffff", "ffffffffffffffffffffffff_1"])
         tag = fam % base if "%x" in fam else fam
     rd = tag_reads_as(tag)
     if rd is not None and (rd, svc) in live_pairs:
@@ -277,7 +277,10 @@ class RandomHistory(object):
                 # an announcement that lacks parameters is not an announcement: a live client of that id is not touched by it
                 cid = r.choice(openids)
                 return {"t": "noise", "line": r.choice(["%d C 1.2.3.4", "%d C", "%d C 1.2.3.4 5 6.7.8.9", "%d C 1.2.3.4 5"]) % cid}
-            return {"t": "noise", "line": r.choice(["-1 M irc.example.net 20", "-1 E NOTICE :something", "-1 ? config", "-1 M srv"])}
+            # (numbers no integer type holds: whatever the C library reports about them must not linger)
+            return {"t": "noise", "line": r.choice(["-1 M irc.example.net 20", "-1 E NOTICE :something", "-1 ? config", "-1 M srv",
+                                                    "-1 M irc.example.net 99999999999999999999999", "-1 X nosuch.svc ffffffffffffffffffffffff_ffffffffffffffffffffffff :OK",
+                                                    "99999999999999999999999 D", "-99999999999999999999999 N host"])}
         if cat == "stray":
             return self.stray_ev()
         if cat == "reload":
